@@ -176,6 +176,11 @@ func C12(c *Ctx) error {
 				}
 				if o.OK() {
 					key := fmt.Sprintf("accepted:%s:%s", strings.TrimPrefix(p, "protoc-gen-"), rule)
+					// the recorded enum class is about map-valued fields only (the check tests the
+					// descriptor kind): any other accepted shape of that rule is a class of its own
+					if rule == "enum_number_with_custom_values" && cs.variant != "map value" {
+						key += ":" + strings.ReplaceAll(cs.variant+"_field", " ", "_")
+					}
 					if !inGen {
 						// imported files are not validated at all: one class, whatever the rule
 						key = "accepted:offender_in_imported_file"
